@@ -70,6 +70,7 @@ func newC19Stats() *C19Stats {
 }
 
 func resetGlobals(adv bool) {
+	S.countOnly = true
 	tensor.UsePool()
 	tensor.VerifDrainChanPools()
 	P.Reset(adv)
@@ -131,6 +132,10 @@ func runRef(seed uint64, cfg *C19Config, prog []Op, st *C19Stats) ([]Op, []stepR
 			case stPanic:
 				st.OpsPanic++
 			}
+		}
+		if o.St == stBudget {
+			return out, recs, &Violation{Property: "C19", Kind: "no-termination", Step: k, FailOp: op.Name, Class: "budget",
+				Detail: fmt.Sprintf("%s did not finish within %d statements (last at %s)", op.Name, opYieldBudget, siteName(S.budgetSite))}
 		}
 		sn, lv, roots := snapWorld(w)
 		recs = append(recs, stepRec{out: o, snaps: sn, live: lv, roots: roots})
@@ -299,7 +304,7 @@ func addPoolStats(a, b *PoolStats) {
 }
 
 func outStr(o Outcome) string {
-	return fmt.Sprintf("%s/%016x", []string{"ok", "error", "panic", "skipped", "deadlock"}[o.St], o.H)
+	return fmt.Sprintf("%s/%016x", []string{"ok", "error", "panic", "skipped", "deadlock", "no-termination"}[o.St], o.H)
 }
 
 func c19Config(r *RNG, tier string) C19Config {
